@@ -8,7 +8,7 @@
 (* (source calls, policy calls, allocation count).                          *)
 (* Used by TraceReader (trace validation of the real code) and by           *)
 (* MCReaderA (model checking of the consequences the properties state).     *)
-EXTENDS Bytes, TLC
+EXTENDS Bytes, FastaFormat, FastqFormat, TLC
 
 FormatErr == {"invalid_start", "invalid_sep", "unequal", "unexpected_end"}
 
@@ -131,6 +131,48 @@ ViewsFastq(a) ==
   IN {<<"C13", conj[i][1]>> : i \in {i \in 1..Len(conj) : ~conj[i][2]}}
 ViewsViol(fmt, a) == IF "v" \notin DOMAIN a THEN {} ELSE IF fmt = "fasta" THEN ViewsFasta(a) ELSE ViewsFastq(a)
 
+\* C10 / C11: what the record methods write (logged with the views)
+NoByte(s, bs) == \A i \in 1..Len(s) : s[i] \notin bs
+HeadInDomain(h) == NoByte(h, {LF}) /\ ~HasCR(h)
+FaRound(out, head, seq) ==
+  LET c == FaChain(out) IN Len(c) = 2 /\ c[1].okRec /\ c[1].rec.head = head /\ Concat(c[1].rec.lines) = seq /\ c[2].okEnd
+FaWrapOK(out, w) ==
+  LET c == FaChain(out)
+      L == c[1].rec.lines
+  IN Len(c) = 2 /\ c[1].okRec /\ \A i \in 1..Len(L) : Len(L[i]) <= w /\ (i < Len(L) => Len(L[i]) = w)
+FqRound(out, head, seq, qual) ==
+  LET c == FqChain(out) IN Len(c) = 2 /\ c[1].okRec /\ c[1].errs = {} /\ c[1].rec.head = head /\ c[1].rec.lines = <<seq>> /\ c[1].rec.qual = qual /\ c[2].okEnd /\ ~c[2].okRec
+StripLF(s) == IF Len(s) > 0 /\ s[Len(s)] = LF THEN SubSeq(s, 1, Len(s) - 1) ELSE s
+NonEmpty(ls) == SelectSeq(ls, LAMBDA z : z # <<>>)
+WriteViol(fmt, el, a) ==
+  IF "v" \notin DOMAIN a \/ ~el.okRec \/ el.zone THEN {}
+  ELSE LET v == a.v IN
+  IF fmt = "fasta"
+  THEN LET cat == Concat(a.lines)
+           dom == HeadInDomain(a.head) /\ NoByte(cat, {LF, CR, GT})
+           wu0 == StripLF(v.wu)
+           c == FaChain(v.wu)
+           conj == <<
+             <<"C10", "record_write_roundtrip", ~dom \/ (FaRound(v.w, a.head, cat) /\ FaRound(v.ow, a.head, cat))>>,
+             <<"C10", "record_write_wrap", ~dom \/ (FaRound(v.ww, a.head, cat) /\ FaWrapOK(v.ww, 3) /\ FaRound(v.oww, a.head, cat) /\ FaWrapOK(v.oww, 3))>>,
+             <<"C11", "fasta_write_unchanged_bytes",
+                 /\ Len(v.wu) > 0 /\ v.wu[Len(v.wu)] = LF /\ Len(wu0) <= Len(el.raw) /\ SubSeq(el.raw, 1, Len(wu0)) = wu0
+                 /\ AllBlank(SubSeq(el.raw, Len(wu0) + 1, Len(el.raw)))>>,
+             <<"C11", "fasta_write_unchanged_reparses", Len(c) = 2 /\ c[1].okRec /\ c[1].rec.head = a.head /\ NonEmpty(c[1].rec.lines) = NonEmpty(a.lines)>>
+           >>
+       IN {<<conj[i][1], conj[i][2]>> : i \in {i \in 1..Len(conj) : ~conj[i][3]}}
+  ELSE LET dom == HeadInDomain(a.head) /\ NoByte(a.lines[1], {LF, CR}) /\ NoByte(a.qual, {LF, CR})
+           conj == <<
+             <<"C11", "record_write_roundtrip", ~dom \/ (FqRound(v.w, a.head, a.lines[1], a.qual) /\ FqRound(v.ow, a.head, a.lines[1], a.qual))>>,
+             <<"C11", "write_unchanged_reproduces_bytes", v.wu = StripLF(el.raw) \o <<LF>> >>
+           >>
+       IN {<<conj[i][1], conj[i][2]>> : i \in {i \in 1..Len(conj) : ~conj[i][3]}}
+
+\* C12: a well-formed file (fields free of CR/LF) never yields a carriage return or an error
+CrViol(e, r) == IF e.pp = "C12" /\ r.k = "rec" /\ ~(NoByte(r.head, {CR}) /\ NoByte(r.qual, {CR}) /\ \A i \in 1..Len(r.lines) : NoByte(r.lines[i], {CR}))
+                THEN {<<"C12", "carriage_return_in_returned_field">>} ELSE {}
+ErrViol12(e, r) == IF e.pp = "C12" /\ r.k \in FormatErr THEN {<<"C12", "error_on_well_formed_file">>} ELSE {}
+
 \* C19: an owned record survives serialisation
 SerdeViol(a) ==
   IF "serde" \notin DOMAIN a THEN {}
@@ -189,9 +231,10 @@ JudgeRead(fmt, chain, s, e) ==
              posbad == ok /\ e.op = "next" /\ e.pos # <<>> /\ el.coords /\ e.pos # <<el.line, el.byte>>
          IN [viol |-> (IF ok THEN {} ELSE {<<Blame(fmt, s), "record_content">>} \cup fab \cup fault)
                       \cup (IF posbad THEN {<<"C05", "position_of_returned_record">>} ELSE {})
-                      \cup ViewsViol(fmt, r) \cup SerdeViol(r)
+                      \cup ViewsViol(fmt, r) \cup SerdeViol(r) \cup CrViol(e, r)
+                      \cup (IF ok THEN WriteViol(fmt, el, r) ELSE {})
                       \cup (IF e.op = "next" THEN AllocViolNext(s, e) ELSE {}),
-             s |-> IF ok THEN [s EXCEPT !.cur = @ + 1, !.hwL = Max({@, Len(r.lines) + 1}), !.nread = @ + 1]
+             s |-> IF ok THEN [s EXCEPT !.cur = @ + 1, !.hwL = Max({@, Len(el.rec.lines) + 1}), !.nread = @ + 1]
                    ELSE [s EXCEPT !.mode = "lost"]]
     [] s.mode = "stream" /\ r.k = "none" ->
          [viol |-> IF el.okEnd THEN {} ELSE {<<Blame(fmt, s), "end_of_input_too_early">>} \cup fault,
@@ -200,12 +243,14 @@ JudgeRead(fmt, chain, s, e) ==
          LET kok == KindIn(r, el.errs) IN
          [viol |-> (IF kok THEN {} ELSE {<<Blame(fmt, s), "error_kind">>} \cup fault)
                    \cup (IF kok /\ ~FieldsIn(r, el.errs) THEN {<<"C17", "error_fields">>} ELSE {})
-                   \cup (IF kok /\ ~MsgOK(r) THEN {<<"C17", "error_message">>} ELSE {}),
+                   \cup (IF kok /\ ~MsgOK(r) THEN {<<"C17", "error_message">>} ELSE {}) \cup ErrViol12(e, r),
           s |-> [s EXCEPT !.mode = IF kok THEN "failed" ELSE "lost"]]
     [] r.k \in {"io", "buffer_limit"} -> [viol |-> {}, s |-> [s EXCEPT !.mode = "limbo", !.lim = IF s.mode = "stream" THEN s.cur - 1 ELSE s.lim]]
     [] s.mode \in {"ended", "failed"} ->
          IF r.k = "none" THEN [viol |-> {}, s |-> s]
-         ELSE [viol |-> {<<Blame(fmt, s), "result_after_end_or_error">>} \cup fab, s |-> [s EXCEPT !.mode = "lost"]]
+         ELSE [viol |-> {<<Blame(fmt, s), "result_after_end_or_error">>} \cup fab
+                        \cup (IF e.op = "iter" THEN {<<"C20", "owned_record_iterator_not_fused">>} ELSE {}),
+               s |-> [s EXCEPT !.mode = "lost"]]
     [] s.mode = "limbo" ->
          IF r.k = "rec"
          THEN LET c == {i \in (s.lim + 1)..Len(chain) : chain[i].okRec /\ Eq(r, chain[i].rec, j)} IN
@@ -240,7 +285,8 @@ JudgeSet(fmt, chain, s, e) ==
          IN [viol |-> (IF allok THEN {} ELSE {<<"C04", "batch_content">>} \cup fabset)
                       \cup (IF allok /\ ~exactok THEN {<<"C04", "exact_count">>} ELSE {})
                       \cup (IF posbad THEN {<<"C05", "position_after_record_set">>} ELSE {})
-                      \cup others \cup AllocViolSet(s, e, batch, nxl, allok /\ s.cur + kk <= N /\ nx.errs # {}),
+                      \cup others \cup AllocViolSet(s, e, batch, nxl, allok /\ s.cur + kk <= N /\ nx.errs # {})
+                      \cup UNION {CrViol(e, batch[i]) \cup ViewsViol(fmt, batch[i]) : i \in 1..kk},
              s |-> IF allok THEN [keep EXCEPT !.cur = @ + kk, !.hwS = HwAfterSet(s, e, batch),
                                              !.hwL = Max({@, MaxLines(batch) + 1}), !.nread = @ + kk]
                    ELSE [s EXCEPT !.mode = "lost"]]
